@@ -5,7 +5,7 @@
    the native REPLAY build.
 
    Output sink.  CBMC mode: fprintf is the harness function h_fprintf below, which appends to h_out[] and
-   understands exactly the conversions mir.c's output code uses: literal text, %s, %c and %03o exactly;
+   understands exactly the conversions mir.c's output code uses: literal text, %s, %c, %03o and %o exactly;
    integer (%d %u %ld %lu PRI*8/16/32/64 %lx) and floating (%.*e %.*Le with the f/L suffix letters being
    literal text) conversions consume their arguments and append ONE placeholder character: decimal and
    floating formatting is libc's job and outside the claim.  REPLAY mode: the real fprintf into an
@@ -57,8 +57,11 @@ static int h_fprintf (FILE *f, const char *fmt, ...) {
     case 'c': h_putc (va_arg (ap, char)); break; /* CBMC keeps variadic arguments unpromoted: mir.c passes a char here */
     case 'o': {
       unsigned v = va_arg (ap, unsigned char); /* mir.c passes (unsigned char) str.s[i], unpromoted under CBMC */
-      __CPROVER_assert (zero3 && v < 512, "PROP %03o is the only octal conversion used, on a byte value");
-      h_putc ('0' + ((v >> 6) & 7)); h_putc ('0' + ((v >> 3) & 7)); h_putc ('0' + (v & 7));
+      __CPROVER_assert (v < 512, "PROP octal conversion of a byte value");
+      /* %03o prints exactly three digits; plain %o prints the minimal number of digits (C11 7.21.6.1) */
+      if (zero3 || v >= 64) h_putc ('0' + ((v >> 6) & 7));
+      if (zero3 || v >= 8) h_putc ('0' + ((v >> 3) & 7));
+      h_putc ('0' + (v & 7));
       break;
     }
     case 'd': case 'i': case 'u': case 'x':
